@@ -368,6 +368,9 @@ func randTxList(r *Rng, nNormal, nBlobTx int, maxBlobLen int, mixed bool, nss []
 			if l < 128 {
 				l = room - 1 + r.Intn(6)
 			}
+		case 3:
+			// cross one or two share boundaries and end exactly on (or one byte around) a later share end
+			l = room + 478*(1+r.Intn(2)) - 2 + r.Intn(3) - 1
 		case 2:
 			// a length on a varint-width boundary; the next transaction then tends to be a boundary filler
 			l = pick(r, []int{127, 128, 129, 16383, 16384, 16385})
